@@ -373,6 +373,7 @@ class PopulationBalanceModel:
             self.reset()
         else:
             oldV = self.ThirdMoment()
+            oldPSD = self.PSD
             distDen = self.PSD / (self.PSDbounds[1:] - self.PSDbounds[:-1])
             rOld = 0.5 * (self.PSDbounds[1:] + self.PSDbounds[:-1])
             self.reset(False)
@@ -380,6 +381,13 @@ class PopulationBalanceModel:
             newV = self.ThirdMoment()
             if newV != 0:
                 self.PSD *= oldV / newV
+            elif oldV != 0:
+                #Interpolation can miss every populated class of a sparse PSD when the new classes are wider
+                #To not lose the precipitates, move the volume of each old class into the new class containing it
+                indices = np.clip(np.searchsorted(self.PSDbounds, rOld, side='right') - 1, 0, self.bins - 1)
+                self.PSD = np.zeros(self.bins)
+                np.add.at(self.PSD, indices, oldPSD * rOld**3)
+                self.PSD /= self.PSDsize**3
             else:
                 self.PSD = np.zeros(self.bins)
 
